@@ -571,7 +571,7 @@ func Run(c *core.Ctx) {
 		Replay(c, core.ReadRequests(c.Arg))
 		return
 	}
-	for i := 0; i < c.Scale(700, 25000); i++ {
+	for i := 0; i < c.Scale(700, 19000); i++ {
 		libCase(c)
 	}
 	for i := 0; i < c.Scale(6, 40); i++ {
